@@ -751,34 +751,46 @@ func (a *NXActionCTNAT) SetPersistent() error {
 }
 
 func (a *NXActionCTNAT) SetRangeIPv4Min(ipMin net.IP) {
+	if a.rangeIPv4Min == nil {
+		a.Length += 4
+	}
 	a.rangeIPv4Min = ipMin
 	a.rangePresent |= NX_NAT_RANGE_IPV4_MIN
-	a.Length += 4
 }
 func (a *NXActionCTNAT) SetRangeIPv4Max(ipMax net.IP) {
+	if a.rangeIPv4Max == nil {
+		a.Length += 4
+	}
 	a.rangeIPv4Max = ipMax
 	a.rangePresent |= NX_NAT_RANGE_IPV4_MAX
-	a.Length += 4
 }
 func (a *NXActionCTNAT) SetRangeIPv6Min(ipMin net.IP) {
+	if a.rangeIPv6Min == nil {
+		a.Length += 16
+	}
 	a.rangeIPv6Min = ipMin
 	a.rangePresent |= NX_NAT_RANGE_IPV6_MIN
-	a.Length += 16
 }
 func (a *NXActionCTNAT) SetRangeIPv6Max(ipMax net.IP) {
+	if a.rangeIPv6Max == nil {
+		a.Length += 16
+	}
 	a.rangeIPv6Max = ipMax
 	a.rangePresent |= NX_NAT_RANGE_IPV6_MAX
-	a.Length += 16
 }
 func (a *NXActionCTNAT) SetRangeProtoMin(protoMin *uint16) {
+	if a.rangeProtoMin == nil {
+		a.Length += 2
+	}
 	a.rangeProtoMin = protoMin
 	a.rangePresent |= NX_NAT_RANGE_PROTO_MIN
-	a.Length += 2
 }
 func (a *NXActionCTNAT) SetRangeProtoMax(protoMax *uint16) {
+	if a.rangeProtoMax == nil {
+		a.Length += 2
+	}
 	a.rangeProtoMax = protoMax
 	a.rangePresent |= NX_NAT_RANGE_PROTO_MAX
-	a.Length += 2
 }
 
 func (a *NXActionCTNAT) UnmarshalBinary(data []byte) error {
